@@ -527,6 +527,172 @@ gen_c02_solid_mask (gen_t *g, rng_t *r, scenario_t *sc)
     }
 }
 
+/* ---- table walk: one entry of one fast-path table of the library under test, and requests
+ * built to fit it.  The tables are read from the implementations the library itself creates
+ * (every delegate of the all-enabled chain), so a new entry is exercised as soon as it exists. */
+static const pixman_fast_path_t *fp_list[2048];
+static int n_fp = -1;
+static int table_tight;        /* 1: operands exactly as large as the request needs (the C04 use of the walk) */
+
+static void
+collect_fast_paths (void)
+{
+    pixman_implementation_t *imp;
+    n_fp = 0;
+    for (imp = chain_get (0); imp; imp = imp->fallback)
+    {
+	const pixman_fast_path_t *e = imp->fast_paths;
+	if (!e) continue;
+	for (; e->op != PIXMAN_OP_NONE; e++)
+	    if (n_fp < 2048) fp_list[n_fp++] = e;
+    }
+}
+
+static int
+fmt_index (pixman_format_code_t f)
+{
+    int k;
+    for (k = 0; k < sim_n_formats; k++) if (sim_formats[k] == f) return k;
+    return -1;
+}
+
+static int
+op_index (pixman_op_t op)
+{
+    int k;
+    for (k = 0; k < sim_n_ops; k++) if (sim_ops[k] == op) return k;
+    return -1;
+}
+
+/* what the flag word of an operand asks for: 0 untransformed, 1 scale, 2/3/4 rotation by 90/180/270 */
+static void
+sampling_from_flags (uint32_t fl, rng_t *r, int *mode, int *filter, int *repeat, int *cover)
+{
+    *mode = (fl & FAST_PATH_ROTATE_90_TRANSFORM) ? 2 : (fl & FAST_PATH_ROTATE_180_TRANSFORM) ? 3 : (fl & FAST_PATH_ROTATE_270_TRANSFORM) ? 4 :
+	    (fl & FAST_PATH_SCALE_TRANSFORM) ? 1 : 0;
+    *filter = (fl & FAST_PATH_BILINEAR_FILTER) ? PIXMAN_FILTER_BILINEAR : (fl & FAST_PATH_NEAREST_FILTER) ? PIXMAN_FILTER_NEAREST :
+	      rng_chance (r, 1, 2) ? PIXMAN_FILTER_NEAREST : PIXMAN_FILTER_BILINEAR;
+    *cover = (fl & (FAST_PATH_SAMPLES_COVER_CLIP_NEAREST | FAST_PATH_SAMPLES_COVER_CLIP_BILINEAR)) != 0;
+    if ((fl & FAST_PATH_NORMAL_REPEAT) == FAST_PATH_NORMAL_REPEAT) *repeat = PIXMAN_REPEAT_NORMAL;
+    else if ((fl & FAST_PATH_PAD_REPEAT) == FAST_PATH_PAD_REPEAT) *repeat = PIXMAN_REPEAT_PAD;
+    else if ((fl & FAST_PATH_REFLECT_REPEAT) == FAST_PATH_REFLECT_REPEAT) *repeat = PIXMAN_REPEAT_REFLECT;
+    else if ((fl & FAST_PATH_NONE_REPEAT) == FAST_PATH_NONE_REPEAT) *repeat = PIXMAN_REPEAT_NONE;
+    else *repeat = *cover ? PIXMAN_REPEAT_NONE : (int)rng_n (r, 4);
+}
+
+/* an operand image in `slot` for format code `f` and flag word `fl`, to be sampled for a dw x dh request */
+static void
+table_operand (gen_t *g, rng_t *r, scenario_t *sc, int slot, pixman_format_code_t f, uint32_t fl, int dw, int dh, int is_mask)
+{
+    static const int64_t edge[] = { 0, 0, 65535, 65535, 0x8000, 0x00ff, 0xff00, 0x0100, 0x7fff, 0xfeff };
+    int mode, filter, repeat, cover, fi;
+    if (f == PIXMAN_solid)
+    {
+	int64_t c[8] = { 0, 0, 0, slot, edge[rng_n (r, 10)], edge[rng_n (r, 10)], edge[rng_n (r, 10)], edge[rng_n (r, 10)] };
+	if (rng_chance (r, 1, 2)) { c[4] = rng_range (r, 0, 65535); c[5] = rng_range (r, 0, c[4]); c[6] = rng_range (r, 0, c[4]); c[7] = rng_range (r, 0, c[4]); }
+	sc_addv (sc, MOP_SOLID, 8, c);
+	g->s[slot].used = 1; g->s[slot].kind = MOP_SOLID; g->s[slot].w = g->s[slot].h = 1; g->s[slot].refs = 1; g->s[slot].has_alpha = -1;
+	return;
+    }
+    fi = fmt_index (f);
+    if (fi < 0) fi = fmt_index (is_mask ? PIXMAN_a8 : PIXMAN_a8r8g8b8);
+    sampling_from_flags (fl, r, &mode, &filter, &repeat, &cover);
+    {
+	int64_t a[14] = { 0, 0, 0, slot, 0, 65536, 0, 0, 0, 65536, 0, 0, 0, 65536 };
+	int64_t ff[9] = { 0, 0, 0, slot, filter, 1, 1, 0, 0 };
+	int64_t rp[5] = { 0, 0, 0, slot, repeat };
+	int slack_w = table_tight ? 0 : 8, slack_h = table_tight ? 0 : 3, side = table_tight ? 8 * (int)rng_n (r, 2) : 0;
+	int sw = dw + slack_w, sh = dh + slack_h;
+	switch (mode)
+	{
+	case 0:
+	    if (!cover && rng_chance (r, 1, 4)) { sw = (int)rng_range (r, 1, dw + 8); sh = (int)rng_range (r, 1, dh + 3); }
+	    gen_bits_exact (g, slot, fi, sw, sh, table_tight ? 0 : (int)rng_n (r, 2), rng_chance (r, 1, 6), (int)rng_n (r, 16), side);
+	    if (!(fl & FAST_PATH_ID_TRANSFORM) && rng_chance (r, 1, 2)) { a[7] = rng_range (r, 0, 3) * 65536; sc_addv (sc, MOP_SET_TRANSFORM, 14, a); }
+	    break;
+	case 1:
+	{
+	    int64_t sx = rng_chance (r, 1, 5) ? 65536 : rng_range (r, 20000, 3 * 65536), sy = rng_chance (r, 1, 2) ? 65536 : rng_range (r, 20000, 3 * 65536);
+	    if (cover) { sw = (int)(((int64_t)(dw + slack_w) * sx >> 16) + 4); sh = (int)(((int64_t)(dh + slack_h) * sy >> 16) + 4); a[7] = 65536 + rng_range (r, 0, 65535); a[10] = 65536 + rng_range (r, 0, 65535); }
+	    else { sw = rng_chance (r, 1, 3) ? (int)rng_range (r, 64, 90) : (int)rng_range (r, 1, 40); sh = (int)rng_range (r, 1, 12); a[7] = rng_range (r, -8 * 65536, 40 * 65536); a[10] = rng_range (r, -4 * 65536, 8 * 65536); }
+	    if (sw > 600) sw = 600;
+	    a[5] = sx; a[9] = sy;
+	    gen_bits_exact (g, slot, fi, sw, sh, table_tight ? 0 : (int)rng_n (r, 2), rng_chance (r, 1, 6), (int)rng_n (r, 16), side);
+	    sc_addv (sc, MOP_SET_TRANSFORM, 14, a);
+	    break;
+	}
+	default:
+	{
+	    /* rotations about the origin, translated back so that the request lies inside the source */
+	    int W = dw + slack_w, H = dh + slack_h;
+	    if (mode == 3) { sw = W; sh = H; a[5] = -65536; a[9] = -65536; a[7] = (int64_t)sw * 65536; a[10] = (int64_t)sh * 65536; }
+	    else
+	    {
+		sw = H; sh = W;
+		a[5] = 0; a[9] = 0;
+		if (mode == 2) { a[6] = -65536; a[8] = 65536; a[7] = (int64_t)sw * 65536; a[10] = 0; }
+		else { a[6] = 65536; a[8] = -65536; a[7] = 0; a[10] = (int64_t)sh * 65536; }
+	    }
+	    gen_bits_exact (g, slot, fi, sw, sh, table_tight ? 0 : (int)rng_n (r, 2), rng_chance (r, 1, 6), (int)rng_n (r, 16), side);
+	    sc_addv (sc, MOP_SET_TRANSFORM, 14, a);
+	    break;
+	}
+	}
+	sc_addv (sc, MOP_SET_FILTER, 9, ff);
+	sc_addv (sc, MOP_SET_REPEAT, 5, rp);
+	if (is_mask && (fl & FAST_PATH_COMPONENT_ALPHA)) { int64_t ca[5] = { 0, 0, 0, slot, 1 }; sc_addv (sc, MOP_SET_COMPONENT_ALPHA, 5, ca); }
+    }
+}
+
+static void
+gen_c02_table (gen_t *g, rng_t *r, scenario_t *sc)
+{
+    const pixman_fast_path_t *e = NULL;
+    int tries, i, n_req = (int)rng_range (r, 3, 7), fd, dw, dh, opi = -1, has_mask;
+    if (n_fp < 0) collect_fast_paths ();
+    for (tries = 0; tries < 16; tries++)
+    {
+	e = fp_list[rng_n (r, n_fp ? n_fp : 1)];
+	opi = n_fp ? op_index (e->op) : -1;
+	if (opi >= 0 && e->src_format != PIXMAN_pixbuf && e->src_format != PIXMAN_rpixbuf) break;
+	opi = -1;
+    }
+    if (!table_tight) sc_set (sc, "chains", 0xffffffffll);
+    if (opi < 0) { gen_c02_scaled (g, r, sc); return; }
+    fd = fmt_index (e->dest_format);
+    if (fd < 0) fd = fmt_index (rng_chance (r, 1, 2) ? PIXMAN_a8r8g8b8 : PIXMAN_r5g6b5);
+    dw = gen_pick_size (g, 150); dh = (int)rng_range (r, 1, 4);
+    if (table_tight) gen_bits_exact (g, 0, fd, dw, dh, 0, rng_chance (r, 1, 6), (int)rng_n (r, 16), 8 * (int)rng_n (r, 2));
+    else gen_bits_exact (g, 0, fd, dw + 8, dh + 3, (int)rng_n (r, 2), rng_chance (r, 1, 6), (int)rng_n (r, 16), 0);
+    table_operand (g, r, sc, 2, e->src_format, e->src_flags, dw, dh, 0);
+    has_mask = e->mask_format != PIXMAN_null;
+    if (has_mask) table_operand (g, r, sc, 3, e->mask_format, e->mask_flags, dw, dh, 1);
+    for (i = 0; i < n_req; i++)
+    {
+	int x = rng_chance (r, 1, 2) ? 0 : (int)rng_range (r, 0, 7), y = (int)rng_range (r, 0, 2);
+	int w = rng_chance (r, 1, 2) ? dw : (int)rng_range (r, 1, dw), h = rng_chance (r, 1, 2) ? dh : (int)rng_range (r, 1, dh);
+	int sx = (int)rng_range (r, 0, 7), sy = (int)rng_range (r, 0, 2);
+	int64_t c[16] = { 0, 0, 0, opi, 2, has_mask ? 3 : -1, 0, sx, sy, rng_chance (r, 1, 2) ? sx : rng_range (r, 0, 7), rng_chance (r, 1, 2) ? sy : rng_range (r, 0, 2), x, y, w, h };
+	int k;
+	if (table_tight && rng_chance (r, 3, 4))
+	{
+	    /* the whole destination from the whole of the operands: last pixel of the last row of each */
+	    c[7] = c[8] = c[9] = c[10] = c[11] = c[12] = 0; c[13] = dw; c[14] = dh;
+	}
+	/* pixel content in short runs of transparent / opaque / mixed, fresh for most requests */
+	for (k = 0; k < 3; k++)
+	{
+	    int slot = k == 0 ? 2 : k == 1 ? 3 : 0;
+	    if (g->s[slot].used && g->s[slot].kind == MOP_BITS && rng_chance (r, 2, 3))
+	    {
+		int64_t sb[6] = { 0, 0, 0, slot, (int64_t)(rng_u64 (r) >> 20), 1 };
+		sc_addv (sc, MOP_SCRIBBLE, 6, sb);
+	    }
+	}
+	sc_addv (sc, MOP_COMPOSITE, 15, c);
+    }
+}
+
 /* the "pixbuf" idiom: non-premultiplied x888 source and a888 mask over the very same bits,
  * composited OVER onto 8888 / 0565 (special-cased by the dispatcher and by fast, mmx, sse2) */
 static void
@@ -771,6 +937,58 @@ gen_c04_scaled_fit (gen_t *g, rng_t *r, scenario_t *sc)
     }
 }
 
+/* rotated exact-fit: rotations by 90, 180, 270 degrees (the tiled rotation fast paths) with a
+ * translation at the very end of the range that keeps every NEAREST sample inside a tightly
+ * packed source: the first or the last row / column of the source is consumed exactly */
+static void
+gen_c04_rotate_fit (gen_t *g, rng_t *r, scenario_t *sc)
+{
+    static const pixman_format_code_t ff[] = { PIXMAN_a8r8g8b8, PIXMAN_x8r8g8b8, PIXMAN_r5g6b5, PIXMAN_a8, PIXMAN_a8r8g8b8 };
+    int fi, i, n_req = (int)rng_range (r, 2, 5);
+    pixman_format_code_t want = ff[rng_n (r, 5)];
+    int W = rng_chance (r, 1, 2) ? (int)rng_range (r, 30, 140) : (int)rng_range (r, 1, 30), H = (int)rng_range (r, 1, 24);
+    for (fi = 0; fi < sim_n_formats - 1; fi++) if (sim_formats[fi] == want) break;
+    gen_bits_exact (g, 0, fi, W + 4, H + 2, 0, 0, (int)rng_n (r, 16), 8 * (int)rng_n (r, 2));
+    for (i = 0; i < n_req; i++)
+    {
+	int rot = 1 + (int)rng_n (r, 3);                 /* 1: 90, 2: 180, 3: 270 */
+	int w = rng_chance (r, 1, 2) ? W : (int)rng_range (r, 1, W), h = rng_chance (r, 1, 2) ? H : (int)rng_range (r, 1, H);
+	int nx = rot == 2 ? w : h, ny = rot == 2 ? h : w;       /* how many samples along the source's x and y */
+	int sw = nx + (int)rng_n (r, 3), sh = ny + (int)rng_n (r, 3);
+	int x_minus = rot != 3, y_minus = rot != 1;
+	int64_t lo[2], hi[2], t[2];
+	int64_t a[14] = { 0, 0, 0, 2, 0, 0, 0, 0, 0, 0, 0, 0, 0, 65536 };
+	int64_t f[9] = { 0, 0, 0, 2, PIXMAN_FILTER_NEAREST, 1, 1, 0, 0 };
+	int64_t rp[5] = { 0, 0, 0, 2, rng_chance (r, 3, 4) ? 0 : rng_n (r, 4) };
+	int64_t un[4] = { 0, 0, 0, 2 };
+	int k;
+	/* sample k of n along an axis is at +-(k + 1/2) + t and NEAREST takes floor (. - 1/65536) */
+	lo[0] = x_minus ? (int64_t)nx * 65536 - 32768 + 1 : -32768 + 1; hi[0] = x_minus ? (int64_t)sw * 65536 + 32768 : (int64_t)(sw - nx) * 65536 + 32768;
+	lo[1] = y_minus ? (int64_t)ny * 65536 - 32768 + 1 : -32768 + 1; hi[1] = y_minus ? (int64_t)sh * 65536 + 32768 : (int64_t)(sh - ny) * 65536 + 32768;
+	for (k = 0; k < 2; k++)
+	    switch (rng_n (r, 4))
+	    {
+	    case 0: t[k] = lo[k]; break;
+	    case 1: case 2: t[k] = hi[k]; break;
+	    default: t[k] = rng_range (r, lo[k], hi[k]); break;
+	    }
+	if (rot == 2) { a[5] = -65536; a[9] = -65536; }
+	else if (rot == 1) { a[6] = -65536; a[8] = 65536; }
+	else { a[6] = 65536; a[8] = -65536; }
+	a[7] = t[0]; a[10] = t[1];
+	if (g->s[2].used) sc_addv (sc, MOP_UNREF, 4, un);
+	g->s[2].used = 0;
+	gen_bits_exact (g, 2, fi, sw, sh, 0, rng_chance (r, 1, 6), 0, 8 * (int)rng_n (r, 2));
+	sc_addv (sc, MOP_SET_TRANSFORM, 14, a);
+	sc_addv (sc, MOP_SET_FILTER, 9, f);
+	sc_addv (sc, MOP_SET_REPEAT, 5, rp);
+	{
+	    int64_t c[16] = { 0, 0, 0, rng_chance (r, 3, 4) ? 1 : 3, 2, -1, 0, 0, 0, 0, 0, rng_n (r, 4), rng_n (r, 2), w, h };
+	    sc_addv (sc, MOP_COMPOSITE, 15, c);
+	}
+    }
+}
+
 /* projective cover: a scale whose bottom row is (q, p, 1) with one of q, p zero, and a request
  * computed so that the TRUE (divided) mapping stays inside the source with a pixel to spare
  * while the undivided affine part runs well past it.  Everything derived from the transform
@@ -936,11 +1154,13 @@ generate (uint64_t seed, int tier, const char *property, scenario_t *sc)
     if (property && !strcmp (property, "C04"))
     {
 	if (rng_chance (&r, 1, 400)) { gen_c04_huge (&g, &r, sc); return; }
-	switch (rng_n (&r, 6))
+	switch (rng_n (&r, 8))
 	{
 	case 0: gen_c04_fit (&g, &r, sc); break;
 	case 1: gen_c04_scaled_fit (&g, &r, sc); break;
 	case 2: gen_c04_projcover (&g, &r, sc); break;
+	case 3: gen_c04_rotate_fit (&g, &r, sc); break;
+	case 4: table_tight = 1; gen_c02_table (&g, &r, sc); table_tight = 0; break;
 	default: gen_c04 (&g, &r, sc); break;
 	}
     }
@@ -950,6 +1170,7 @@ generate (uint64_t seed, int tier, const char *property, scenario_t *sc)
     case 0: case 1: gen_c02_scaled (&g, &r, sc); break;
     case 2: gen_c02_solid_mask (&g, &r, sc); break;
     case 3: if (rng_chance (&r, 1, 2)) gen_c02_pixbuf (&g, &r, sc); else gen_c02 (&g, &r, sc); break;
+    case 4: case 5: gen_c02_table (&g, &r, sc); break;
     default: gen_c02 (&g, &r, sc); break;
     }
 }
